@@ -51,6 +51,10 @@ class SlicedRun:
                     ev[1](s)
                     self.trace.append('E:' + ev[0])
                 self._to_idle(runner, k, inject)
+            # jobs still held back by the scenario's set-up are let go now
+            for job in list(s.loop.jobs):
+                job.held = False
+            self._to_idle(runner, k, inject)
             for _ in range(self.closing_ticks):
                 if not s.loop.fire_polling_timer():
                     break
@@ -71,7 +75,7 @@ class SlicedRun:
             if self.parked is not None and self.points >= self.resume_point:
                 self._finish_parked(runner)
                 continue
-            active = [x for x in runner.active() if x is not self.parked]
+            active = [x for x in runner.active() if x is not self.parked and not x.job.held]
             if active:
                 sj = active[0]
                 name = getattr(sj.job.func, '__name__', '')
@@ -85,7 +89,7 @@ class SlicedRun:
                             if s.loop.step_ready():
                                 continue
                             others = [x for x in runner.active()
-                                      if x is not sj and x is not self.parked]
+                                      if x is not sj and x is not self.parked and not x.job.held]
                             if not others:
                                 break
                             o = others[0]
